@@ -651,7 +651,11 @@ def replay(obligation, model, rep):
 def search(func, tier, seed, obligation=""):
     """bounded native search behind every shape / termination obligation: the catalogue of cyclic programs and of
     include orders, with every positional request at every identifier"""
-    return cycle_catalogue() or include_order_catalogue(tier)
+    w = cycle_catalogue()
+    if w:
+        return w
+    w = include_order_catalogue(tier)
+    return w[0] if isinstance(w, tuple) else w
 
 
 TRUSTED = [
